@@ -96,8 +96,18 @@ def canon(v, seen=None):
     is part of the form"""
     if seen is None:
         seen = {}
-    if isinstance(v, bool) or v is None or isinstance(v, (int, float, str, bytes)):
-        return (type(v).__name__, repr(v))
+    if v is None:
+        return ("NoneType", None)
+    if isinstance(v, bool):
+        return ("bool", v)
+    if isinstance(v, int):
+        return ("int", v)          # the value itself, so that symbolic ints stay solver terms
+    if isinstance(v, float):
+        return ("float", repr(v))  # repr distinguishes -0.0 and nan
+    if isinstance(v, str):
+        return ("str", v)
+    if isinstance(v, bytes):
+        return ("bytes", v)
     if isinstance(v, bytearray):
         return ("bytearray", bytes(v))
     if isinstance(v, type) and hasattr(v, "_id"):
